@@ -449,7 +449,10 @@ func (d *decodeCtx) feed(c *choice.Ctx, in []byte, kind int, origin string) {
 			// reported as an observation, not as a violation (no short wall-clock oracle); the watchdog decides "does not return"
 			d.st.Outcome("slower-than-5s")
 		}
-		_ = panicked
+		if panicked {
+			// "each decoding entry point returns": a panic is not a return (C05 reports the same input as a panic)
+			c.Failf(fmt.Sprintf("C06:does-not-return:panic:%s:%s", e.name, panicSite(pv)), "%s panicked on %d input bytes (%s): %v\ninput hex: %x", e.name, len(in), origin, pv, clip(in))
+		}
 	}
 }
 
